@@ -58,6 +58,8 @@ let parse_action op args =
   | "read", [ v ] -> ARead (n_of_int (int_of_string v))
   | "release", [ v ] -> ARelease (n_of_int (int_of_string v))
   | "tagadd", _ -> ATagAdd
+  | "tagdel", [ u; h ] -> ATagDel (u = "1", h = "1")
+  | "tagupd", [ u; h ] -> ATagUpd (u = "1", h = "1")
   | "start", [ k ] -> AStart (kind_of k)
   | "complete", [ k ] -> AComplete (kind_of k)
   | _ -> failwith ("bad action " ^ op)
@@ -155,6 +157,8 @@ let () =
                  | "read", [ v ] -> Some (ARead (n_of_int (int_of_string v)))
                  | "release", [ v ] -> Some (ARelease (n_of_int (int_of_string v)))
                  | "tagadd", _ -> Some ATagAdd
+                 | "tagdel", [ u; h ] -> Some (ATagDel (u = "1", h = "1"))
+                 | "tagupd", [ u; h ] -> Some (ATagUpd (u = "1", h = "1"))
                  | "start", [ k ] -> Some (AStart (kind_of k))
                  | "complete", [ k ] -> Some (AComplete (kind_of k))
                  | _ -> failwith ("bad action " ^ line)
